@@ -193,11 +193,25 @@ func typeKey(t types.Type) string {
 	return mangle(s)
 }
 
+var typeNameReg = map[string]string{}
+var typeNameMu sync.Mutex
+
 func shortTypeName(t types.Type) string {
 	if n, ok := t.(*types.Named); ok {
 		nm := n.Obj().Name()
 		if n.Obj().Pkg() != nil {
 			nm = n.Obj().Pkg().Name() + "_" + nm
+			// two packages with the same name (sync vs internal/sync): disambiguate by path hash
+			full := n.Obj().Pkg().Path() + "." + n.Obj().Name()
+			typeNameMu.Lock()
+			if prev, ok := typeNameReg[nm]; ok && prev != full {
+				h := fnv.New32a()
+				h.Write([]byte(n.Obj().Pkg().Path()))
+				nm = fmt.Sprintf("%s_%x", nm, h.Sum32()&0xffff)
+			} else {
+				typeNameReg[nm] = full
+			}
+			typeNameMu.Unlock()
 		}
 		if n.TypeArgs() != nil && n.TypeArgs().Len() > 0 {
 			for i := 0; i < n.TypeArgs().Len(); i++ {
